@@ -742,6 +742,8 @@ def value_attr(ex, st, v, attr, node):
         return _out(v, st)
     if isinstance(v, ty.SeqV) and attr == "shape":
         return _out((v.len,), st)
+    if isinstance(v, ty.SeqV) and attr == "dtype":
+        return _out({"Bool": "bool", "Int": "int64", "Real": "float64"}.get(repr(v.elem), "object"), st)
     if isinstance(v, str) and attr == "format":
         return _out(Intrinsic("str.format", str_format, recv=v), st)
     if isinstance(v, (str, ty.OpaqueV)) and attr in ("format", "join", "split"):
@@ -1482,6 +1484,7 @@ MODULE_FUNCS = {
     "copy.copy": m_copy,
     "math.ceil": m_math_ceil,
     "random.choice": m_random_choice,
+    "copy.deepcopy": lambda ex, st, a, k, n: __import__("pyvc.copylib", fromlist=["x"]).m_deepcopy(ex, st, a, k, n),
     "pandas.DataFrame": lambda ex, st, a, k, n: __import__("pyvc.pdlib", fromlist=["x"]).dataframe(ex, st, a, k, n),
     "pandas.concat": lambda ex, st, a, k, n: __import__("pyvc.pdlib", fromlist=["x"]).concat(ex, st, a, k, n),
     "numpy.append": lambda ex, st, a, k, n: __import__("pyvc.nplib", fromlist=["x"]).np_append(ex, st, a, k, n),
@@ -1520,17 +1523,24 @@ def symset_card(ex, st, sset, node):
     >= 0;  = 0 iff the source is empty;  <= 1 iff all source elements are equal;  <= len(source)."""
     if sset.src is None:
         raise _U("len() of a symbolic set without a source sequence", node)
-    if getattr(sset, "card", None) is not None:
-        return sset.card
+    cache = st.ghost.setdefault("__cards__", {})        # per state: the defining facts live in this state's path condition
+    if sset.mem.get_id() in cache:
+        return cache[sset.mem.get_id()]
     v = sset.src
     (a,) = v.arrs
     c = z3.Int(ty.fresh_name("card"))
     i, j = z3.Int(ty.fresh_name("ci")), z3.Int(ty.fresh_name("cj"))
-    all_eq = ty.FA([i, j], z3.Implies(z3.And(i >= 0, i < v.len, j >= 0, j < v.len), z3.Select(a, i) == z3.Select(a, j)),
+    n_ = z3.simplify(v.len)
+    if z3.is_int_value(n_) and n_.as_long() <= 16:
+        # a set display / a list of known length: the quantifier is expanded
+        items_ = [z3.simplify(z3.Select(a, k_)) for k_ in range(n_.as_long())]
+        all_eq = z3.And(*[items_[0] == x for x in items_[1:]]) if len(items_) > 1 else z3.BoolVal(True)
+    else:
+        all_eq = ty.FA([i, j], z3.Implies(z3.And(i >= 0, i < v.len, j >= 0, j < v.len), z3.Select(a, i) == z3.Select(a, j)),
                        patterns=[z3.MultiPattern(z3.Select(a, i), z3.Select(a, j))])
     st.assume(z3.And(c >= 0, c <= z3.If(v.len >= 0, v.len, 0), (c == 0) == (v.len <= 0)))
     st.assume((c <= 1) == all_eq)
-    sset.card = c
+    cache[sset.mem.get_id()] = c
     return c
 
 
